@@ -254,13 +254,19 @@ def sh_many_values(rng):
     return prog(init, body), {}, "many-values"
 
 
+def sh_all_finite(rng):
+    """every variable finitely valued (the class for which the worklist bound prod |T x| is explicit)"""
+    g = gen.G(rng, max_depth=1, allow_simult=False, n_fin=rng.randint(2, 3), n_acc=0, guard=rng.random() < 0.3)
+    return g.program(), {}, "all-finite"
+
+
 def sh_generic(rng):
     g = gen.G(rng, max_depth=rng.choice([1, 2]), allow_nested_reassign=rng.random() < 0.3, n_fin=rng.randint(1, 2), n_acc=rng.randint(1, 2))
     return g.program(), {}, "generic"
 
 
 IN_SHAPES = [sh_const_in_cond, sh_nested_reassign, sh_nonint, sh_goal_const, sh_simult_branch, sh_cat_branch,
-             sh_multi_assign, sh_guard, sh_linear_cycle, sh_nl_acyclic, sh_cont_location, sh_many_values, sh_generic]
+             sh_multi_assign, sh_guard, sh_linear_cycle, sh_nl_acyclic, sh_cont_location, sh_many_values, sh_all_finite, sh_generic]
 
 
 # ---- out-of-class stream (a refusal is legitimate; a result must still be right) --------------
